@@ -248,7 +248,8 @@ def replay_regress(prop_id, mod):
     """Committed reproductions run first, without Hypothesis in the loop."""
     d = os.path.join(VERIF_DIR, "regress", prop_id)
     n = 0
-    if os.path.isdir(d):
+    # VERIF_NO_REGRESS=1 is for auditing the generators themselves (tools/seeded_eval.py --no-regress)
+    if os.path.isdir(d) and os.environ.get("VERIF_NO_REGRESS") != "1":
         for name in sorted(os.listdir(d)):
             if not name.endswith(".json"):
                 continue
